@@ -30,6 +30,9 @@ unsigned int coap_dtls_get_overhead(coap_session_t *session) { (void)session; re
 #ifndef RTYPE
 #define RTYPE 2   /* 2 = COAP_MESSAGE_ACK: piggybacked responses; 1 = COAP_MESSAGE_NON: separate non-confirmable responses */
 #endif
+#ifndef ERR_AT
+#define ERR_AT -1        /* >= 0: the delivery with this index is a 4.04 error response (no Block2) to the request it answers */
+#endif
 #define BODYLEN ((NBLK - 1) * 16 + LASTLEN)
 
 static uint8_t *g_body, *g_tok;
@@ -128,6 +131,25 @@ VERIF_HARNESS(c09_b2_get) {
     rsp = coap_pdu_init(RTYPE, COAP_RESPONSE_CODE(205), RTYPE == 2 ? rmid : (uint16_t)(0x7000 + num), 256);
     VERIF_ASSUME(rsp != NULL);
     coap_add_token(rsp, tkl, rs_tok[num]);
+    if (i == ERR_AT) {
+      /* the server abandons the transfer: an error response to the (follow-up) request, carrying that request's token */
+      int state_before = ne_sess.lg_crcv != NULL;
+      rsp->code = COAP_RESPONSE_CODE(404);
+#if RTYPE == 2
+      coap_remove_from_queue(&ne_ctx.sendqueue, &ne_sess, rmid, &sent);
+      if (sent && ne_sess.con_active) ne_sess.con_active--;
+#endif
+      r = coap_handle_response_get_block(&ne_ctx, &ne_sess, sent ? sent->pdu : NULL, rsp, COAP_RECURSE_OK);
+      if (r == 0) deliver(sent ? sent->pdu : NULL, rsp);
+      VERIF_ASSERT(app_calls == calls_before + 1, "B2 an error response that ends the transfer is handed to the application exactly once");
+      VERIF_ASSERT(app_tok_ok, "B2 the error response handed to the application carries the application's own token, never one libcoap substituted");
+      VERIF_ASSERT(app_sent_tok_ok, "B2 the request shown to the handler with the error response carries the application's own token");
+      VERIF_ASSERT(!state_before || ne_sess.lg_crcv == NULL, "B2 the transfer state is released when the transfer is abandoned");
+      if (sent) coap_delete_node_lkd(sent);
+      coap_delete_pdu(rsp);
+      seen[num] = 1;
+      break;
+    }
     coap_add_option(rsp, COAP_OPTION_BLOCK2, coap_encode_var_safe(v, sizeof(v), ((unsigned)num << 4) | ((unsigned)more << 3) | 0), v);
 #if SIZE2
     coap_add_option(rsp, COAP_OPTION_SIZE2, coap_encode_var_safe(v, sizeof(v), BODYLEN), v);
@@ -180,7 +202,7 @@ VERIF_HARNESS(c09_b2_get) {
 #if COMPLETE
   VERIF_ASSERT(nseen == NBLK, "B2 scenario delivers every block");
 #else
-#if SINGLE
+#if SINGLE && ERR_AT < 0
   VERIF_ASSERT(app_calls == 0, "B2 an incomplete body is never handed to the application in single-body mode");
 #endif
 #endif
